@@ -447,7 +447,13 @@ func mergeBorrow(conds []string, vals []*Val) *Borrow {
 		ai, ri, ei := get(vals[i])
 		a, r, e = ite(conds[i], ai, a), ite(conds[i], ri, r), ite(conds[i], ei, e)
 	}
-	return &Borrow{Active: a, Reader: r, Epoch: e}
+	pool := false
+	for _, v := range vals {
+		if v.Borrow != nil && v.Borrow.Pool {
+			pool = true
+		}
+	}
+	return &Borrow{Active: a, Reader: r, Epoch: e, Pool: pool}
 }
 
 // useBytes: reading (or appending to) a byte slice that may be borrowed from a bufio.Reader requires that the
@@ -459,7 +465,11 @@ func (fr *Frame) useBytes(ins ssa.Instruction, v *Val, what string) {
 	ex := fr.ex
 	re := ex.get(fr.cur, fr.ghost("RE"))
 	g := imp(v.Borrow.Active, eq("(select "+re+" "+v.Borrow.Reader+")", v.Borrow.Epoch))
-	ex.vc.oblige("borrow", ex.oblName(fr.key+"/borrow-valid@"+what), fr.curReach, g, "a slice returned by bufio.Reader.ReadLine is used only before the next read on that reader: "+what, ex.posOf(ins.Pos()), nil)
+	why := "a slice returned by bufio.Reader.ReadLine is used only before the next read on that reader: " + what
+	if v.Borrow.Pool {
+		why = "a buffer taken from the pool is not used after it was handed back: " + what
+	}
+	ex.vc.oblige("borrow", ex.oblName(fr.key+"/borrow-valid@"+what), fr.curReach, g, why, ex.posOf(ins.Pos()), nil)
 	ex.vc.assume(imp(fr.curReach, g))
 }
 
@@ -467,6 +477,10 @@ func (fr *Frame) useBytes(ins ssa.Instruction, v *Val, what string) {
 // without a borrowed-result declaration, sent on a channel) must not alias a reader's buffer.
 func (fr *Frame) ownBytes(ins ssa.Instruction, v *Val, what string) {
 	if v == nil || v.Borrow == nil {
+		return
+	}
+	if v.Borrow.Pool {
+		fr.useBytes(ins, v, what) // handing a pool buffer on is fine as long as it has not been released
 		return
 	}
 	ex := fr.ex
@@ -685,7 +699,7 @@ func (fr *Frame) enterLoop(li *loopInfo, preds []*ssa.BasicBlock, conds []string
 		}
 		if eb := mergeBorrow(econds, evals); eb != nil {
 			first := vc.fresh("first_iter", SBool)
-			v.Borrow = &Borrow{Active: and(first, eb.Active), Reader: eb.Reader, Epoch: eb.Epoch}
+			v.Borrow = &Borrow{Active: and(first, eb.Active), Reader: eb.Reader, Epoch: eb.Epoch, Pool: eb.Pool}
 		}
 		// provenance survives if all edges agree syntactically (e.g. ranged slice)
 		fr.vals[phi] = v
